@@ -207,6 +207,25 @@ pub mod props {
 //@@ end
 
 //@@ lemma
+//@@ unit lemma.C10.sequence_keeps_inner_final_output tags=C10
+    /// C10: "the outcome is ... stdout output ... describing the innermost subcommand entered, regardless of what else is
+    /// missing": when a later field of a `construct!` sequence produced final stdout output (help of a subcommand that was
+    /// entered), an earlier field that is merely missing must not replace it.
+    /// This does NOT hold for the relation the real macro expansion refines (first failing field wins): known finding D11.
+    pub proof fn lemma_c10_sequence_keeps_inner_final_output<TA, TB, A: Parser<TA>, B: Parser<TB>>(a: A, b: B, pre: State, r: Result<(TA, TB), Error>, post: State,
+            ra: Result<TA, Error>, m1: State, rb: Result<TB, Error>, m2: State, f: ParseFailure)
+        requires
+            con2_rel(a, b, false, pre, r, post),
+            a.rel(pre, ra, m1), b.rel(m1, rb, m2),
+            forall|x: Result<TA, Error>, y: State| #[trigger] a.rel(pre, x, y) ==> x == ra && y == m1,
+            forall|x: Result<TB, Error>, y: State| #[trigger] b.rel(m1, x, y) ==> x == rb && y == m2,
+            rb is Err && rb->Err_0.0 == Message::ParseFailure(f) && f is Stdout,
+        ensures
+            r is Err && r->Err_0.0 == Message::ParseFailure(f), // #inner_help_wins_over_missing_outer_field
+    {}
+//@@ end
+
+//@@ lemma
 //@@ unit lemma.C02.spellings_agree tags=C02
     /// `--name value`, `--name=value`, `-n value`, `-n=value`, `-nvalue`: once tokenised into (Short|Long)(name, adj) followed by
     /// (Word|ArgWord)(v), the argument's value is the same v; `adjacent` accepts exactly the shapes whose key carries is_adj
